@@ -629,7 +629,17 @@ def _is_all_settled(comp, u, g, pol) -> bool:
         return True  # `if isnan(w): continue`: restricts nothing (a NaN never wins a comparison)
     if comp.policy == "min" and t[0] == "cmp" and t[1] == "<=" and t[2] == ("const", 0) and t[3] in _weight_candidates(comp, u):
         return True  # `if w < 0: continue`: restricts nothing on non-negative dissimilarities (rules_ift.classify_guard)
-    return classify_guard(comp, u, g, pol, None).endswith("(all settled)")
+    name = classify_guard(comp, u, g, pol, None)
+    if name == "p!=q":
+        # `p != q` next to a strict improvement test restricts nothing: the candidate max(H.cost[p], w) is never strictly below
+        # H.cost[p] (min(H.cost[p], d) never strictly above it), so q = p is rejected with or without the test
+        from .rules_ift import acceptance
+        acc = acceptance(comp, u)
+        v, hp = u.value, comp.hcost(comp.p)
+        if acc is not None and v[0] in ("max", "min") and hp in v[1] \
+                and (acc[1], v[0], comp.policy) in (("v<h", "max", "min"), ("h<v", "min", "max")):
+            return True
+    return name.endswith("(all settled)")
 
 
 def _weight_candidates(comp, u):
